@@ -65,6 +65,7 @@ pub struct RunStats {
     pub ops_after_panic: u32,
     pub max_buffered: usize,
     pub total_advanced: usize,
+    pub overreport_panics: u32,
 }
 
 /// Which groups of assertions are active (so that each property reports only its own oracle).
@@ -283,14 +284,120 @@ pub fn run_history(h: &History, which: Oracles, prop: &str) -> Result<RunStats, 
         if panicked_before {
             st.ops_after_panic += 1;
         }
-        // What a refill does to the documented realign bookkeeping; applied per source call below.
         let mut requested: Option<usize> = None; // request length for the minimality check
         let mut exactly_one = false;
-        match op {
-            Op::Request { num, add } => {
-                let n = buffered * (*num as usize) / 4 + *add as usize;
+
+        // ---- call phase: the real reader, guarded against (expected and unexpected) panics ----
+        enum R {
+            Bytes(Vec<u8>),
+            Byte(Option<u8>),
+            Flag(bool),
+            Offset(usize),
+            Checked(std::io::Result<()>),
+            Unit,
+        }
+        let adv_n = match op {
+            Op::Advance(f) | Op::AdvanceWithBuf(f) | Op::AdvanceUnchecked(f) => {
+                ((*f as usize) * (buffered + 1)) >> 16
+            }
+            Op::AdvanceTooFar(x) | Op::AdvanceWithBufTooFar(x) => {
+                (buffered + 1).saturating_add(*x as usize)
+            }
+            Op::AdvanceHuge(back) => usize::MAX - *back as usize,
+            _ => 0,
+        };
+        let req_n = match op {
+            Op::Request { num, add } => buffered * (*num as usize) / 4 + *add as usize,
+            Op::RequestByteAt(k) => *k as usize,
+            Op::ScanDigits(off) | Op::ScanNextNewline(off) => (*off as usize) % (buffered + 2),
+            _ => 0,
+        };
+        if op.is_hostile() && adv_n <= buffered {
+            // (cannot happen for TooFar; AdvanceHuge with a gigantic buffer) - nothing to do
+            continue;
+        }
+        let called = catch_unwind(AssertUnwindSafe(|| match op {
+            Op::Request { .. } => R::Bytes(reader.request(req_n).to_vec()),
+            Op::RequestByte => R::Byte(reader.request_byte()),
+            Op::RequestByteAt(_) => R::Byte(reader.request_byte_at_offset(req_n)),
+            Op::RequestMore => R::Flag(reader.request_more()),
+            Op::Advance(_) | Op::AdvanceTooFar(_) | Op::AdvanceHuge(_) => {
+                reader.advance(adv_n);
+                R::Unit
+            }
+            Op::AdvanceWithBuf(_) | Op::AdvanceWithBufTooFar(_) => {
+                R::Bytes(reader.advance_with_buf(adv_n).to_vec())
+            }
+            Op::AdvanceUnchecked(_) => {
+                unsafe { reader.advance_unchecked(adv_n) };
+                R::Unit
+            }
+            Op::SetMark => {
+                reader.set_mark();
+                R::Unit
+            }
+            Op::SetMarkRel(d) => {
+                reader.set_mark_to_position(m.pos.wrapping_add(*d as isize as usize));
+                R::Unit
+            }
+            Op::SetChunk(c) => {
+                reader.set_chunk_size((*c).max(1));
+                R::Unit
+            }
+            Op::CheckIoError => R::Checked(reader.check_io_error()),
+            Op::ScanDigits(_) => R::Offset(flussab::text::ascii_digits_multi::<u64>(&mut reader, req_n).1),
+            Op::ScanNextNewline(_) => R::Offset(flussab::text::next_newline(&mut reader, req_n)),
+        }));
+        let result = match called {
+            Ok(r) => {
+                if op.is_hostile() {
+                    bad!(
+                        "no-panic",
+                        "step {} {:?}: advancing by {} with {} bytes buffered did not panic although documented to",
+                        i,
+                        op,
+                        adv_n,
+                        buffered
+                    );
+                }
+                r
+            }
+            Err(p) => {
+                let msg = crate::engine::panic_message(&p);
+                let lied = log.borrow().overreports > before.overreports;
+                if op.is_hostile() && msg.contains("advanced past") {
+                    st.caught_panics += 1;
+                    panicked_before = true;
+                } else if lied && msg.contains("invariant of std::io::Read trait violated") {
+                    st.caught_panics += 1;
+                    st.overreport_panics += 1;
+                    panicked_before = true;
+                } else if op.is_hostile() {
+                    // Panicked, but not with the documented message (e.g. an arithmetic overflow
+                    // check fired first). Still a panic, i.e. safe; keep going.
+                    st.caught_panics += 1;
+                    panicked_before = true;
+                } else {
+                    bad!("panic", "step {} {:?} panicked: {}", i, op, msg);
+                }
+                observe!(i, op);
+                continue;
+            }
+        };
+        if log.borrow().overreports > before.overreports {
+            bad!(
+                "overreport-accepted",
+                "step {} {:?}: the source reported more bytes than the slice it was given and the reader did not panic",
+                i,
+                op
+            );
+        }
+
+        // ---- check phase ----
+        match (op, result) {
+            (Op::Request { .. }, R::Bytes(got)) => {
+                let n = req_n;
                 requested = Some(n);
-                let got = reader.request(n).to_vec();
                 let l = log.borrow();
                 if which.window {
                     if got.len() < n && !l.terminal_returned {
@@ -307,16 +414,9 @@ pub fn run_history(h: &History, which: Oracles, prop: &str) -> Result<RunStats, 
                     }
                 }
             }
-            Op::RequestByte | Op::RequestByteAt(_) => {
-                let k = match op {
-                    Op::RequestByteAt(k) => *k as usize,
-                    _ => 0,
-                };
+            (Op::RequestByte | Op::RequestByteAt(_), R::Byte(got)) => {
+                let k = req_n;
                 requested = Some(k + 1);
-                let got = match op {
-                    Op::RequestByte => reader.request_byte(),
-                    _ => reader.request_byte_at_offset(k),
-                };
                 let l = log.borrow();
                 if which.window {
                     let want = s.get(m.pos + k).copied().filter(|_| m.pos + k < l.delivered);
@@ -337,54 +437,45 @@ pub fn run_history(h: &History, which: Oracles, prop: &str) -> Result<RunStats, 
                     }
                 }
             }
-            Op::RequestMore => {
+            (Op::RequestMore, R::Flag(r)) => {
                 exactly_one = true;
-                let r = reader.request_more();
                 if which.window && r == complete_before {
                     bad!("request-more-result", "step {} request_more() returned {} with is_complete() = {} before", i, r, complete_before);
                 }
             }
-            Op::Advance(f) | Op::AdvanceWithBuf(f) | Op::AdvanceUnchecked(f) => {
-                let n = ((*f as usize) * (buffered + 1)) >> 16;
-                match op {
-                    Op::Advance(_) => reader.advance(n),
-                    Op::AdvanceWithBuf(_) => {
-                        let got = reader.advance_with_buf(n).to_vec();
-                        if (which.window || which.safety) && got[..] != s[m.pos..m.pos + n] {
-                            bad!(
-                                "advance-with-buf",
-                                "step {} advance_with_buf({}) returned {:?}, source bytes are {:?}",
-                                i,
-                                n,
-                                show_bytes(&got),
-                                show_bytes(&s[m.pos..m.pos + n])
-                            );
-                        }
-                    }
-                    _ => unsafe { reader.advance_unchecked(n) },
+            (Op::Advance(_) | Op::AdvanceUnchecked(_), R::Unit) => {
+                m.pos += adv_n;
+                m.in_buf += adv_n;
+                st.total_advanced += adv_n;
+            }
+            (Op::AdvanceWithBuf(_), R::Bytes(got)) => {
+                let n = adv_n;
+                if (which.window || which.safety) && got[..] != s[m.pos..m.pos + n] {
+                    bad!(
+                        "advance-with-buf",
+                        "step {} advance_with_buf({}) returned {:?}, source bytes are {:?}",
+                        i,
+                        n,
+                        show_bytes(&got),
+                        show_bytes(&s[m.pos..m.pos + n])
+                    );
                 }
                 m.pos += n;
                 m.in_buf += n;
                 st.total_advanced += n;
             }
-            Op::SetMark => {
-                reader.set_mark();
+            (Op::SetMark, _) => {
                 m.mark = m.pos;
                 realign_seen_since_mark = false;
             }
-            Op::SetMarkRel(d) => {
-                let p = m.pos.wrapping_add(*d as isize as usize);
-                reader.set_mark_to_position(p);
-                m.mark = p;
+            (Op::SetMarkRel(d), _) => {
+                m.mark = m.pos.wrapping_add(*d as isize as usize);
                 realign_seen_since_mark = false;
             }
-            Op::SetChunk(c) => {
-                let c = (*c).max(1);
-                reader.set_chunk_size(c);
-                m.chunk = c;
+            (Op::SetChunk(c), _) => {
+                m.chunk = (*c).max(1);
             }
-            Op::CheckIoError => {
-                let r = reader.check_io_error();
+            (Op::CheckIoError, R::Checked(r)) => {
                 if which.window {
                     match (&r, m.error_parked) {
                         (Err(e), true) => {
@@ -405,49 +496,12 @@ pub fn run_history(h: &History, which: Oracles, prop: &str) -> Result<RunStats, 
                 }
                 m.error_parked = false;
             }
-            Op::ScanDigits(off) => {
-                let off = (*off as usize) % (buffered + 2);
-                let (_, end) = flussab::text::ascii_digits_multi::<u64>(&mut reader, off);
-                if which.window && end < off {
-                    bad!("scan-offset", "step {} ascii_digits_multi returned offset {} < start {}", i, end, off);
+            (Op::ScanDigits(_) | Op::ScanNextNewline(_), R::Offset(end)) => {
+                if which.window && end < req_n {
+                    bad!("scan-offset", "step {} {:?} returned offset {} < start {}", i, op, end, req_n);
                 }
             }
-            Op::ScanNextNewline(off) => {
-                let off = (*off as usize) % (buffered + 2);
-                let end = flussab::text::next_newline(&mut reader, off);
-                if which.window && end < off {
-                    bad!("scan-offset", "step {} next_newline returned offset {} < start {}", i, end, off);
-                }
-            }
-            Op::AdvanceTooFar(_) | Op::AdvanceHuge(_) | Op::AdvanceWithBufTooFar(_) => {
-                let n = match op {
-                    Op::AdvanceTooFar(x) | Op::AdvanceWithBufTooFar(x) => {
-                        (buffered + 1).saturating_add(*x as usize)
-                    }
-                    Op::AdvanceHuge(back) => usize::MAX - *back as usize,
-                    _ => unreachable!(),
-                };
-                if n > buffered {
-                    let r = catch_unwind(AssertUnwindSafe(|| match op {
-                        Op::AdvanceWithBufTooFar(_) => {
-                            let _ = reader.advance_with_buf(n).len();
-                        }
-                        _ => reader.advance(n),
-                    }));
-                    if r.is_ok() {
-                        bad!(
-                            "no-panic",
-                            "step {} {:?}: advancing by {} with {} bytes buffered did not panic although documented to",
-                            i,
-                            op,
-                            n,
-                            buffered
-                        );
-                    }
-                    st.caught_panics += 1;
-                    panicked_before = true;
-                }
-            }
+            _ => {}
         }
 
         // Source-call accounting for this step.
